@@ -78,7 +78,10 @@ OpsOf(cls, s) ==
     [] cls = "FetchAny"   -> {Merge(Merge([op |-> "Fetch", k |-> RandomElement(CertKeys), e |-> RandomElement(EncKeys),
                                             n |-> RandomElement(AllNonces), life |-> RandomElement(Lives), selfinfo |-> RandomElement({FALSE, FALSE, TRUE})],
                                             wc[1]), wc[2]) : wc \in {RandomElement(WrapCombos)}}
-    [] cls = "Submit"     -> {v \in {SubRand(i, Muts) : i \in 1..6} : v \in SubmitOps}
+    \* relay (optional field, only ever put on requests that are NOT valid): the request also carries registration info
+    \* re-wrapped by a registered intermediate for its key and nonce - the relayed shape does not make it valid
+    [] cls = "Submit"     -> {IF ~ValidReq(v) /\ v.api = "fetch" /\ RandomElement(1..2) = 1 THEN Merge(v, [relay |-> TRUE]) ELSE v :
+                                v \in {v \in {SubRand(i, Muts) : i \in 1..6} : v \in SubmitOps}}
     [] cls = "SubmitWin"  -> {v \in {SubRand(i, {"none"}) : i \in 1..6} : v \in SubmitOps}
     [] cls = "CreateRequest" -> {[op |-> "CreateRequest", k |-> "fresh", e |-> "fresh", n |-> "fresh", s |-> NONE,
                                   flow |-> RandomElement({"plain", "plain", "wrap"}), again |-> RandomElement({FALSE, FALSE, TRUE})]}
